@@ -135,12 +135,12 @@ def timeout(duration, func, *args, **kwargs):
         target_thread.join()
         if target_thread.exc_info[0] is not None:
             ei = target_thread.exc_info
-            # Python 2 had the three-argument raise statement; thanks to PEP
-            # 3109 for showing how to convert that to valid Python 3 statements.
-            e = ei[0](ei[1])
-            e.__traceback__ = ei[2]
-            e.exc_info = target_thread.exc_info
-            raise e
+            # Re-raise the very object the worker raised (it still carries the
+            # worker's traceback). Building a new instance of its class from it
+            # fails or lies for every class whose constructor wants something
+            # else (UnicodeDecodeError, json.JSONDecodeError, a student class
+            # with two required arguments), and loses a SyntaxError's position.
+            raise ei[1]
         return target_thread.result
 
 
